@@ -213,8 +213,15 @@ func genCall(r *rand.Rand, reg []string, tcp bool, tokenBody string) Call {
 	if tokenBody != "" {
 		c.Body = mon.Q(tokenBody + "|" + string(c.Body))
 	}
+	// bodies that do not travel with the head: beyond the read buffers (64 KiB .. 1 MiB), or written after the head was flushed
+	if r.Intn(12) == 0 {
+		c.Fill = []int{65536, 65537, 262144, 1048576}[r.Intn(4)]
+	}
+	if tcp && r.Intn(4) == 0 {
+		c.Flush = true
+	}
 	if tcp && (c.Status == 204 || c.Status == 304) {
-		c.Body = ""
+		c.Body, c.Fill, c.Flush = "", 0, false
 	}
 	c.OpClient = r.Intn(3) == 0
 	switch k := r.Intn(40); {
@@ -290,6 +297,17 @@ func run(m *mon.M) {
 	for i := 0; i < m.N(40, 400); i++ {
 		od := &OpDefaults{Kind: "op-client-defaults", OpJar: i&1 != 0, Warm: i&2 != 0, OpTransport: i&4 != 0, OpCtx: []string{"", "background", "todo", "background", "todo"}[(i/8)%5]}
 		od.RtExpired = (i/8)%5 >= 3
+		m.Begin(od)
+		runOpDefaults(m, od)
+	}
+	// redirect policy of the governing client: 302 + Location answered; operation client stops / follows; Runtime made with
+	// NewWithClient (policy stops / follows) or with New; mirror cases without an operation client
+	for i := 0; i < m.N(48, 96); i++ {
+		od := &OpDefaults{Kind: "op-client-defaults", Redirect: true, OpStops: i&1 != 0, WithClient: i&2 != 0, RtStops: i&4 != 0, NoOpClient: i&8 != 0,
+			OpTransport: (i/16)&1 != 0, OpJar: (i/32)&1 != 0, Warm: (i/16)%3 == 2}
+		if !od.WithClient {
+			od.RtStops = false
+		}
 		m.Begin(od)
 		runOpDefaults(m, od)
 	}
